@@ -288,12 +288,14 @@ def parse_cases(out, tag="CASE"):
             raise Inconclusive("unparsable TLC CASE line")
 
 
-def dedupe_histories(recs, complete=lambda e: e.get("status", 1) != 0 or e.get("ev") == "tick"):
+def dedupe_histories(recs, complete=lambda e: e.get("status", 1) != 0 or e.get("ev") == "tick", drop_last=False):
     """TLC's simulator evaluates invariants on every successor of the last state, so a behaviour is printed once per
     successor: keep one history per distinct sequence of completed steps."""
     seen = set()
     for r in recs:
         h = [e for e in r["hist"] if complete(e)]
+        if drop_last:
+            h = h[:-1]  # the successors of the last state differ in their last event only
         k = json.dumps(h, sort_keys=True)
         if k in seen or not h:
             continue
